@@ -243,6 +243,15 @@ def scenarios(rng: random.Random, tier: str) -> list[str]:
     out.append(own + " | start ok | rx 0 " + nodegen.cea(2001, "peer1.x", 2001, 268435464) + " | acc | rx 1 " + nodegen.cer(nodegen.HOST, "4", 95, 96) +
                " | tick | rx 0 " + nodegen.dwr(97, 98) + " | tick")
     out.append(own + " | start fail | acc | rx 0 " + nodegen.cer(nodegen.HOST, "4", 95, 96) + " | acc | rx 1 " + nodegen.cer(nodegen.HOST, "4", 99, 100) + " | tick")
+    # a CEA rejecting the node's CER that echoes the offending AVP in a Failed-AVP: well-formed, with a payload that does not
+    # fit the AVP's type (what a 5014 echoes), not an AVP at all, empty -- closed with the rejection reason all the same
+    import gen
+    osi_ok = gen.rfc_wire(278, 0, 0x40, (7).to_bytes(4, "big")).hex()
+    osi_short = gen.rfc_wire(278, 0, 0x40, b"\x00\x07").hex()
+    for rc in (5010, 5014, 3010):
+        for fav in (osi_ok, osi_short, "", osi_ok + osi_short):      # (content that is no AVP list makes the frame undecodable: the reader skips it, C05)
+            out.append(nodegen.CONFIGS["out"] + " | start ok,ok | rx 0 " + nodegen.cea(rc, "peer1.x", 2001, 268435464) + ",fav=" + fav +
+                       " | tick | adv 1 | tick")
     # random deeper
     for i in range(150 if tier == "quick" else 3000):
         cfgn = rng.choice(["basic", "two", "out", "noapp"])
